@@ -13,6 +13,7 @@ import (
 	"regexp"
 	"sort"
 	"strings"
+	"time"
 )
 
 type OracleResult struct {
@@ -42,7 +43,19 @@ type histCfg struct {
 
 // runHistory executes either generated steps (replaySteps == nil) or the given steps.
 func runHistory(r *Rng, cfg histCfg, replaySteps []string) (h *HistRunner, err error) {
-	sys, err := NewSys(SysOpts{})
+	// IDLE pushes are sent at once (bulk time 0) or buffered and merged (gluon's default is 500 ms): the choice is the
+	// first step of the history so that a replay starts the server the same way
+	bulk := 0
+	if replaySteps != nil {
+		for _, st := range replaySteps {
+			if f := strings.Fields(st); len(f) == 3 && f[0] == "X" && f[1] == "IDLEBULK" {
+				bulk = atoi(f[2])
+			}
+		}
+	} else if r.Chance(1, 3) {
+		bulk = 250
+	}
+	sys, err := NewSys(SysOpts{IdleBulk: time.Duration(bulk) * time.Millisecond})
 	if err != nil {
 		return nil, err
 	}
@@ -51,6 +64,11 @@ func runHistory(r *Rng, cfg histCfg, replaySteps []string) (h *HistRunner, err e
 	defer h.CloseSessions()
 	if err := h.setupMailboxes(); err != nil {
 		return h, err
+	}
+	if replaySteps == nil && bulk != 0 {
+		if err := h.Exec(fmt.Sprintf("X IDLEBULK %d", bulk)); err != nil {
+			return h, err
+		}
 	}
 	if replaySteps != nil {
 		for _, st := range replaySteps {
